@@ -426,11 +426,11 @@ func TestC06(t *testing.T) {
 	// the same round trip from several goroutines at once, each with its own instances (per main number; payloads
 	// from the low and the high end of the byte range): decode, re-encode and render must give what they give alone
 	if rec.Env.Shard == 0 {
-		f, first, storms := roundTripStorms(types, [][]byte{{0x42, 0x7d}, {0xfe, 0xc7}, {0x02, 0x81}, {0x3e, 0xe0}}, 300)
+		f, first, storms := roundTripStorms(types, [][]byte{{0x42, 0x7d}, {0xfe, 0xc7}, {0x02, 0x81}, {0x3e, 0xe0}}, 1200)
 		if f != nil {
 			common.Report(t, rec, f, c06Plan{Type: first, Hex: "00"})
 		}
-		rec.Eval(storms * 8 * 300 * 2)
+		rec.Eval(storms * 8 * 1200 * 2)
 		rec.ClassN("concurrent-round-trip-storms", storms)
 	}
 	for n := range unknownTable {
